@@ -10,6 +10,8 @@ from harness.refmodel import freeze
 S = load()
 
 PROPERTY = "C02"
+LEVEL_TEXT = 'Exploration: invariant (rectangular, shape, rows == columns) checked on every live table after every step of generated histories plus directed ragged / zero-row constructions; structural oracles for >>, <<, row slice/mask, transpose twice.'
+LEVEL_NOTE = 'Tables are read column-wise through cols() and row-wise through iteration and t[i]; nested vectors are outside the domain.'
 DESIGN_REF = "DESIGN.md §5 C02"
 ENGINE = "world"
 TECHNIQUE = "model-based property testing over operation histories; invariant (rectangular, shape, row view == column view) checked on every live table after every step, plus structural step oracles (>>, <<, row slice/mask, transpose twice) and ragged-input rejection"
